@@ -47,6 +47,9 @@ func wexec(p wparams, ctl *explore.Ctl) explore.Result {
 	after := []*appctlpb.User{pbUser("alice", "pw-a"), pbUser("carol", "pw-c"), pbUser("bob2", "pw-b")} // bob removed; bob's password lives on under another name
 	ips := []net.IP{net.IPv4(10, 9, 0, 1), net.IPv4(10, 9, 0, 1), net.IPv4(10, 9, 0, 2)}                // alice and bob share a source address
 	cfg := world.Config{UDP: p.UDP, MTU: 1400, Users: users, Seed: p.Seed, Horizon: 300 * time.Second, RawMux: true, HintMandatory: p.Mandatory}
+	if p.Ds > 0 && thoroughTier {
+		cfg.Stalls = []time.Duration{5 * time.Millisecond, 1500 * time.Millisecond}
+	}
 	type acc struct {
 		tag  int
 		user string
@@ -200,7 +203,11 @@ func wexec(p wparams, ctl *explore.Ctl) explore.Result {
 	return explore.Result{Outcome: out, Violations: v.Viol, Steps: ex.Steps}
 }
 
+// thoroughTier: schedule scenarios also explore goroutines held up before an atomic write
+var thoroughTier bool
+
 func worldUnits(tier string) []runner.Unit {
+	thoroughTier = tier == "thorough"
 	var us []runner.Unit
 	i := 0
 	add := func(p wparams, name string) {
